@@ -7,8 +7,15 @@ python3 - <<'PY'
 import sys, os
 sys.path.insert(0, "harness")
 import lib
+import glob, importlib
 lib.build_go()
 lib.regen_tables()
+# property modules that generate their own Coq inputs (e.g. C17: API descriptors) expose setup()
+for f in sorted(glob.glob("harness/props/C*.py")):
+    mod = importlib.import_module("props." + os.path.basename(f)[:-3])
+    if hasattr(mod, "setup"):
+        mod.setup()
+lib.coq_makefile()
 ok, log = lib.coq_make([], timeout=7200)   # full .vo build of every file in _CoqProject
 if not ok:
     sys.stdout.write(log[-5000:])
